@@ -110,6 +110,7 @@ Fixpoint hist_pure (gs0 cur : list graph) (es : list engine) (hs : list hstep) :
   | [] => []
   | HQ q :: r => step_p vf2b enum cur es q :: hist_pure gs0 cur es r
   | HEdit i k :: r => hist_pure gs0 (set_nth cur i (gnth gs0 k)) es r
+  | HNew i k :: r => hist_pure gs0 (set_nth cur i (gnth gs0 k)) es r
   end.
 
 Lemma pre_check_wl_off_any e hi H pi P c : e_wl e = false -> pre_check e hi H pi P c = (pre_check_p e H P, c).
@@ -147,7 +148,7 @@ Qed.
 Theorem edits_wl_off gs0 es hs : Forall (fun e => e_wl e = false) es ->
   forall cur c, fst (run_hist vf2b enum gs0 cur es hs c) = hist_pure gs0 cur es hs.
 Proof.
-  intros F. pose proof (enth_wl_off es F) as Hw. induction hs as [|[q|i k] hs IH]; intros cur c; simpl; auto.
+  intros F. pose proof (enth_wl_off es F) as Hw. induction hs as [|[q|i k|i k] hs IH]; intros cur c; simpl; auto.
   rewrite (step_wl_off cur es q c Hw). specialize (IH cur c). destruct (run_hist vf2b enum gs0 cur es hs c) as [ts c''].
   simpl in *. rewrite IH. reflexivity.
 Qed.
@@ -170,6 +171,71 @@ Proof.
   - rewrite (Hi na h E). f_equal. unfold gnth. clear -Hl. revert i Hl. induction gs as [|x gs IH]; intros [|i] Hl; simpl in *; try lia; auto.
     apply IH. lia.
   - rewrite (Hc gi na h E). f_equal. unfold gnth. clear -Hne. revert gi i Hne. induction gs as [|x gs IH]; intros [|gi] [|i] Hne; simpl; auto; try congruence.
+Qed.
+(** [drop_obj i] forgets exactly the entries of object i *)
+Lemma cache_get_drop i gi na c : cache_get (gi, na) (drop_obj i c) = if Nat.eqb gi i then None else cache_get (gi, na) c.
+Proof.
+  unfold drop_obj. induction c as [|[[gj nb] h] r IH]; simpl; [destruct (Nat.eqb gi i); reflexivity|].
+  destruct (Nat.eqb gj i) eqn:Ej; simpl.
+  - rewrite IH. unfold ckey_eqb. simpl. destruct (Nat.eqb gi i) eqn:Ei; [reflexivity|].
+    destruct (Nat.eqb gi gj) eqn:Eg; [|reflexivity]. apply Nat.eqb_eq in Eg. apply Nat.eqb_eq in Ej. apply Nat.eqb_neq in Ei. congruence.
+  - unfold ckey_eqb at 1. simpl. destruct (Nat.eqb gi gj && ln_eqb na nb) eqn:K.
+    + apply andb_true_iff in K. destruct K as (K1 & K2). apply Nat.eqb_eq in K1. subst gj. rewrite Ej.
+      unfold ckey_eqb. simpl. rewrite Nat.eqb_refl, K2. reflexivity.
+    + rewrite IH. destruct (Nat.eqb gi i); [reflexivity|]. unfold ckey_eqb. simpl. rewrite K. reflexivity.
+Qed.
+
+Lemma gnth_set_nth_other {X} (d : X) gs i gi g' : gi <> i -> nth gi (set_nth gs i g') d = nth gi gs d.
+Proof.
+  revert gi i. induction gs as [|x gs IH]; intros [|gi] [|i] Hne; simpl; auto; try congruence.
+Qed.
+
+(** a NEW object at index i keeps the cache invariant whatever value it holds: the entries of the old object are gone *)
+Theorem new_object_keeps_inv gs i g' c : cache_inv gs c -> cache_inv (set_nth gs i g') (drop_obj i c).
+Proof.
+  intros Hc gi na h E. rewrite cache_get_drop in E. destruct (Nat.eqb gi i) eqn:Ei; [discriminate|].
+  apply Nat.eqb_neq in Ei. rewrite (Hc gi na h E). f_equal. unfold gnth. symmetry. apply gnth_set_nth_other. exact Ei.
+Qed.
+
+(** histories in which new graph objects appear (derived from other objects, rebuilt, ...) but no object is edited in place after it
+    was queried: EVERY engine — filtering or not — answers every query like the cache-free functions on the current graph values *)
+Definition no_edits (hs : list hstep) : Prop := forall i k, ~ In (HEdit i k) hs.
+
+Theorem new_objects_harmless gs0 es hs : no_edits hs ->
+  forall cur c, cache_inv cur c -> fst (run_hist vf2b enum gs0 cur es hs c) = hist_pure gs0 cur es hs.
+Proof.
+  induction hs as [|[q|i k|i k] hs IH]; intros Hn cur c Hc; simpl; auto.
+  - destruct (step_pure vf2b enum cur es q c Hc) as (c' & E & H'). rewrite E.
+    assert (Hn' : no_edits hs) by (intros i k I; apply (Hn i k); right; exact I).
+    specialize (IH Hn' cur c' H'). destruct (run_hist vf2b enum gs0 cur es hs c') as [ts c'']. simpl in *. rewrite IH. reflexivity.
+  - exfalso. apply (Hn i k). left. reflexivity.
+  - apply IH; [intros i' k' I; apply (Hn i' k'); right; exact I | apply new_object_keeps_inv; exact Hc].
+Qed.
+(** the general rule behind C07_edit_uncached / C07_new_objects (and the oracle's exemption rule): a history with in-place edits
+    and new objects answers like the cache-free functions as long as every in-place edit hits an object that has NO cache entry at
+    that moment (never compared by a filtering engine at equal order since it came into being) *)
+Fixpoint edits_uncached (gs0 cur : list graph) (es : list engine) (hs : list hstep) (c : cache) : Prop :=
+  match hs with
+  | [] => True
+  | HQ q :: r => edits_uncached gs0 cur es r (snd (step vf2b enum cur es q c))
+  | HEdit i k :: r => (forall na, cache_get (i, na) c = None) /\ edits_uncached gs0 (set_nth cur i (gnth gs0 k)) es r c
+  | HNew i k :: r => edits_uncached gs0 (set_nth cur i (gnth gs0 k)) es r (drop_obj i c)
+  end.
+
+Lemma uncached_edit_keeps_inv gs i g' c : cache_inv gs c -> (forall na, cache_get (i, na) c = None) -> cache_inv (set_nth gs i g') c.
+Proof.
+  intros Hc Hn gi na h E. destruct (Nat.eq_dec gi i) as [->|Hne]; [rewrite Hn in E; discriminate|].
+  rewrite (Hc gi na h E). f_equal. unfold gnth. symmetry. apply gnth_set_nth_other. exact Hne.
+Qed.
+
+Theorem safe_edits_harmless gs0 es hs : forall cur c, cache_inv cur c -> edits_uncached gs0 cur es hs c ->
+  fst (run_hist vf2b enum gs0 cur es hs c) = hist_pure gs0 cur es hs.
+Proof.
+  induction hs as [|[q|i k|i k] hs IH]; intros cur c Hc Hs; simpl in *; auto.
+  - destruct (step_pure vf2b enum cur es q c Hc) as (c' & E & H'). rewrite E in *. simpl in Hs.
+    specialize (IH cur c' H' Hs). destruct (run_hist vf2b enum gs0 cur es hs c') as [ts c'']. simpl in *. rewrite IH. reflexivity.
+  - destruct Hs as (Hn & Hs). apply IH; auto. apply uncached_edit_keeps_inv; auto.
+  - apply IH; auto. apply new_object_keeps_inv. exact Hc.
 Qed.
 End Extra.
 
